@@ -7,9 +7,11 @@
    mean is C07/Spec.v (written from the format specifications); destinations are the 13
    kinds.  Integers are Z, floats IEEE bit patterns; [f64_scaled b = Some (x * 2^1074)]
    says that the float64 with pattern b is finite and is exactly the integer x. *)
-From Coq Require Import List ZArith Bool Lia.
+From Coq Require Import List NArith ZArith Bool Lia.
+From Verif Require Import C09.Spec.   (* the RFC 8259 number grammar and correct rounding (JsonStd); first, so that C07 names win *)
 From Verif Require Import Base.Word Base.Outcome Base.FBits Gen.Consts Gen.Leaf
-  C07.Model C07.Spec C07.ProofsLeaf C07.ProofsFrac C07.Proofs C07.ProofsJson C07.ProofsFloat.
+  C07.Model C07.Spec C07.ProofsLeaf C07.ProofsFrac C07.Proofs C07.ProofsJson C07.ProofsFloat
+  C07.Json C07.JsonProofs.
 From Verif Require Gen.Leaf2 C07.LeafTie.
 Import ListNotations.
 Local Open Scope Z_scope.
@@ -211,6 +213,108 @@ Theorem C07_json_scale_partial : forall (r : readFloatResult) (f : Z),
   (readFloatResult_exp r < 0 -> readFloatResult_mantissa r = f * 10 ^ (- readFloatResult_exp r)).
 Proof. exact parseUint64_reader_spec. Qed.
 Print Assumptions C07_json_scale_partial.
+
+(* ---- json: the bytes of a number token into every destination kind (C07/Json.v) ----
+   The model composes, exactly as json.go / decimal.go do, C09's models of readFloat,
+   parseUint64_simple, parseFloat64/32_custom with the translated parseUint64_reader,
+   chkOvf.Uint2Int and the generic narrowing.  Literals are those of the RFC 8259 grammar
+   (C09/Spec.v: [numlit], [wf_numlit], text [render_num upper n] with e or E), of ANY length
+   (the bound 2^61 is vacuous for Go slices); the exact value of a literal is
+   (-1)^nneg * dmant n * 10^dexp n = [lit_signed_mant n] * 10^[dexp n].
+   [strconv] (strconv.ParseFloat, only consulted for float destinations) is any function. *)
+
+(* integers: if a literal decodes into an integer kind without error, then its exact value IS
+   an integer, is the stored value, and lies in the kind's range.  So 2e19,
+   18446744073709551616, 1.5, 1e-1, -1 into uint8..uintptr, 128 into int8 ... are errors,
+   never wrapped / truncated values; 1.50e1, 1E2, 150e-1, 1844674407370955161.5e1 are read exactly. *)
+Theorem C07_json_int : forall (strconv : bfmt -> list N -> option Z)
+                              (n : numlit) (upper : bool) (k : kind) (x : Z),
+  wf_numlit n = true -> Z.of_nat (length (render_num upper n)) < 2 ^ 61 ->
+  is_int_kind k = true ->
+  json_decode strconv k (render_num upper n) = Ok x ->
+  ((0 <= dexp n -> x = lit_signed_mant n * 10 ^ dexp n) /\
+   (dexp n < 0 -> x * 10 ^ (- dexp n) = lit_signed_mant n)) /\
+  kind_lo k <= x < kind_hi k.
+Proof. exact json_int_lemma. Qed.
+Print Assumptions C07_json_int.
+
+(* the converse on plain integer literals (no fraction, no exponent part): a value in the
+   destination's range IS accepted and stored unchanged ("-0" into an unsigned kind is refused
+   by the code: hence the sign premise for unsigned kinds).
+   partial: literals with a fraction or exponent whose value is an integer in range are not
+   covered (the code refuses some of them, e.g. more than two exponent digits, 1e019) *)
+Theorem C07_json_int_complete_partial : forall (strconv : bfmt -> list N -> option Z)
+                                               (n : numlit) (upper : bool) (k : kind),
+  wf_numlit n = true -> nfrac n = None /\ nexp n = None -> is_int_kind k = true ->
+  kind_lo k <= lit_signed_mant n < kind_hi k ->
+  (kind_lo k = 0 -> nneg n = false) ->
+  json_decode strconv k (render_num upper n) = Ok (lit_signed_mant n).
+Proof. exact json_int_complete. Qed.
+Print Assumptions C07_json_int_complete_partial.
+
+(* floats: a literal decoded into float64 / float32 without error stores either the correctly
+   rounded value of the literal ([num_bits]: round to nearest even of the exact rational, C09) and
+   that value is FINITE, or exactly what strconv.ParseFloat answered for this text.  An infinity
+   (float32 or float64 overflow) can therefore only come from strconv, which reports a range
+   error instead (oracle: the harness compares it with [num_bits] on every literal) *)
+Theorem C07_json_float : forall (strconv : bfmt -> list N -> option Z)
+                                (n : numlit) (upper : bool) (b : Z),
+  wf_numlit n = true -> Z.of_nat (length (render_num upper n)) < 2 ^ 61 ->
+  (json_decode strconv KFloat64 (render_num upper n) = Ok b ->
+     (b = num_bits binary64 n /\ is_finite binary64 b = true) \/
+     strconv binary64 (render_num upper n) = Some b) /\
+  (json_decode strconv KFloat32 (render_num upper n) = Ok b ->
+     (b = num_bits binary32 n /\ is_finite binary32 b = true) \/
+     strconv binary32 (render_num upper n) = Some b).
+Proof. exact json_float_lemma. Qed.
+Print Assumptions C07_json_float.
+
+(* hence, if strconv.ParseFloat is correctly rounded and answers an error when the rounded value
+   overflows (on this text), every float the decoder stores is the correctly rounded value and
+   finite: float32 / float64 overflow is an error, never a silent infinity *)
+Theorem C07_json_float_rounded : forall (strconv : bfmt -> list N -> option Z)
+                                        (n : numlit) (upper : bool) (b : Z),
+  wf_numlit n = true -> Z.of_nat (length (render_num upper n)) < 2 ^ 61 ->
+  (forall f b', strconv f (render_num upper n) = Some b' -> b' = num_bits f n /\ is_finite f b' = true) ->
+  (json_decode strconv KFloat64 (render_num upper n) = Ok b -> b = num_bits binary64 n /\ is_finite binary64 b = true) /\
+  (json_decode strconv KFloat32 (render_num upper n) = Ok b -> b = num_bits binary32 n /\ is_finite binary32 b = true).
+Proof. exact json_float_rounded. Qed.
+Print Assumptions C07_json_float_rounded.
+
+Example C07_json_int_nonvacuous :
+  (* 1.50e1, -128, 18446744073709551615, 1844674407370955161.5e1, 1E2 are accepted exactly ... *)
+  let n1 := mknum false [1%N] (Some [5; 0]%N) (Some (ENone, [1%N])) in
+  wf_numlit n1 = true /\ render_num false n1 = [49; 46; 53; 48; 101; 49]%N /\ dexp n1 = -1 /\ lit_signed_mant n1 = 150 /\
+  json_decode_int KUint8 (render_num false n1) = Ok 15 /\
+  json_decode_int KInt8 [45; 49; 50; 56]%N = Ok (-128) /\
+  json_decode_int KUint64 [49;56;52;52;54;55;52;52;48;55;51;55;48;57;53;53;49;54;49;53]%N = Ok 18446744073709551615 /\
+  json_decode_int KUint [49;56;52;52;54;55;52;52;48;55;51;55;48;57;53;53;49;54;49;46;53;101;49]%N = Ok 18446744073709551615 /\
+  json_decode_int KInt16 [49; 69; 50]%N = Ok 100 /\
+  json_decode_int KInt64 [45; 48; 46; 48]%N = Ok 0 /\
+  (* ... 2e19 (F07-4), 2^64, 1.5, 1e-1, -1 and -0 into unsigned, 128 into int8, 2^63 into int64, -2^63-1 are errors *)
+  json_decode_int KUint64 [50; 101; 49; 57]%N = Err EOther /\
+  json_decode_int KUint64 [49;56;52;52;54;55;52;52;48;55;51;55;48;57;53;53;49;54;49;54]%N = Err EOther /\
+  json_decode_int KInt64 [49; 46; 53]%N = Err EOther /\
+  json_decode_int KInt64 [49; 101; 45; 49]%N = Err EOther /\
+  json_decode_int KUint8 [45; 49]%N = Err EOther /\
+  json_decode_int KUint8 [45; 48]%N = Err EOther /\
+  json_decode_int KInt8 [49; 50; 56]%N = Err EOverflow /\
+  json_decode_int KInt64 [57;50;50;51;51;55;50;48;51;54;56;53;52;55;55;53;56;48;56]%N = Err EOverflow /\
+  json_decode_int KInt64 [45;57;50;50;51;51;55;50;48;51;54;56;53;52;55;55;53;56;48;57]%N = Err EOverflow.
+Proof. vm_compute. repeat apply conj; reflexivity. Qed.
+
+Example C07_json_float_nonvacuous :
+  (* 0.1 and 1e10 on the exact fast path (no oracle), into both widths; 3.5e38 and a 20-digit
+     mantissa are left to strconv: with an oracle that reports the overflow, float32 gets an error *)
+  let none := fun (_ : bfmt) (_ : list N) => @None Z in
+  json_decode none KFloat64 [48; 46; 49]%N = Ok 4591870180066957722 /\
+  json_decode none KFloat32 [48; 46; 49]%N = Ok 1036831949 /\
+  json_decode none KFloat32 [49; 101; 49; 48]%N = Ok 1343554297 /\
+  num_bits binary32 (mknum false [0%N] (Some [1%N]) None) = 1036831949 /\
+  json_decode none KFloat32 [51; 46; 53; 101; 51; 56]%N = Err EOther /\
+  json_decode (fun f _ => if prec f =? 53 then Some 5183643171103440896 else None) KFloat64 [51; 46; 53; 101; 51; 56]%N
+    = Ok 5183643171103440896.
+Proof. vm_compute. repeat apply conj; reflexivity. Qed.
 
 (* non-vacuity *)
 Example C07_int_nonvacuous :
